@@ -1,0 +1,10 @@
+//go:build !verif
+// +build !verif
+
+package leveldb
+
+// No-op hook points; the bodies are empty and inlined away when the verif tag is off.
+
+func verifYield(p int) {}
+
+func verifEvent(k int, a, b uint64) {}
